@@ -17,7 +17,8 @@ CONSTANTS MaxReq,     \* requests per connection
           GenKeys,    \* keys the client uses (subset of 1..5)
           GenQs,      \* queries the client uses
           GenModes,   \* subset of {"seq", "burst"}
-          GenKinds    \* initial kinds of the records of GenKeys
+          GenKinds,   \* initial kinds of the records of GenKeys
+          GenFams     \* request families the client uses (model checking)
 
 VARIABLES s, n, hist, hdr, stage
 vars == <<s, n, hist, hdr, stage>>
@@ -51,7 +52,8 @@ InitRecs(key) ==
 KindBag == <<"abs", "abs", "json", "json", "json", "opq", "opq", "hid", "bad">>
 InitRecW(key, backend) ==
     LET kd == KindBag[RandomElement(1..Len(KindBag))]
-        S == {r \in InitRecs(key) : r.k = kd /\ (kd = "bad" => backend = "bbolt" /\ key # 4)}
+        \* bbolt cannot hold the empty database key; only bbolt can hold an unreadable record
+        S == {r \in InitRecs(key) : r.k = kd /\ (kd = "bad" => backend = "bbolt") /\ (key = 4 => backend # "bbolt")}
     IN IF S = {} THEN {[k |-> "abs", c |-> NoC, sub |-> "none"]} ELSE {RandomElement(S)}
 
 Init == /\ s = InitState("seq", [k \in Keys |-> [k |-> "abs", c |-> NoC]])
@@ -102,7 +104,7 @@ ReqsOf(f) ==
                                                    ELSE {"nosep", "unkcmd"})}
       [] f = "iw"     -> UNION {{R("iw", 0, k, 0, pf, IF pf = "J" THEN c ELSE NoC, "") :
                                     pf \in IF s.st[k].k = "hid" THEN {"hid"} ELSE PickW(<<"J", "J", "opq", "del">>), c \in Pick(GenC)}
-                                : k \in Pick(GenKeys \ {5})}
+                                : k \in Pick(GenKeys \ (IF hdr.backend = "bbolt" THEN {4, 5} ELSE {5}))}
 
 \* an internal write never changes whether a record is hidden (the monitor relies on it)
 Sensible(r) == r.cmd = "iw" => (r.pf = "hid" <=> s.st[r.key].k = "hid")
@@ -111,9 +113,9 @@ Sensible(r) == r.cmd = "iw" => (r.pf = "hid" <=> s.st[r.key].k = "hid")
 Ready == Emit \/ ~IsSeq(s) \/ \A i \in GenIds : s.op[i].ph # "run"
 
 ClientReq == /\ stage = "run" /\ n < MaxReq /\ Ready
-             /\ \E f \in PickW(Family) : \E r \in ReqsOf(f) :
+             /\ \E f \in (IF Emit THEN PickW(Family) ELSE GenFams) : \E r \in ReqsOf(f) :
                    /\ Sensible(r)
-                   /\ s' = Req(s, r)
+                   /\ s' = IF r.cmd = "iw" THEN Req(Req(s, r), [r EXCEPT !.cmd = "iwok"]) ELSE Req(s, r)
                    /\ hist' = IF Emit THEN Append(hist, r) ELSE hist
              /\ n' = n + 1
              /\ UNCHANGED <<hdr, stage>>
@@ -193,5 +195,5 @@ Counters == \A i \in GenIds : \A k \in Keys :
 StoreSane == \A k \in Keys : (s.st[k].k = "json" => s.st[k].c \in s.st[k].seen)
                           /\ (s.st[k].k \in {"opq", "unk", "bad"} => s.st[k].loose)
 \* a correct server can always finish: nothing stays owed for ever
-Quiesces == <>[](stage = "run" /\ EndOK(s))
+Quiesces == <>[]EndOK(s)
 ====
